@@ -201,6 +201,42 @@ def _job(idx: int) -> List[Dict[str, Any]]:
             inst("R20.4", "HOLDS" if ok else "VIOLATED", fn, f"copy.{n} == original.{n}", line,
                  "" if ok else f"the copy's '{n}' is {short(d) if d is not None else 'missing'}, not the original's ({short(v)}): deepcopy does not preserve {n}")
 
+    # ---- R20.4m: the memo protocol. copy.deepcopy hands __deepcopy__ a memo that may already hold copies of *other* objects.
+    # Returning an entry of the memo is right only for the entry registered under this object's identity (id(self)); a lookup by
+    # anything else (the rating's id string, its name, its numbers) can hand back the copy of another object that merely shares
+    # that value — two distinct ratings with the same id, a snapshot and the current state, would be merged into one copy.
+    if dc is not None:
+        from ..ai.state import Cell, DictObj
+        from ..ai.values import FuncV, Length, Union, INF
+        from ..ai.builtins import _deep_prov
+
+        w2 = World(prog, roles)
+        w2.make_rating_object("A", (), (), origin="input:player")
+        w2.make_rating_object("B", (), (), origin="input:player")
+        a2, b2 = Ptr("A", ()), Ptr("B", ())
+        w2.state.heap["MEMO"] = Cell(DictObj(Top("memo-key"), b2, Length(None, 1, INF), None), (), (), "input:memo", None)
+        keys: List[Any] = []
+        w2.I.hooks["dict-get"] = lambda I, node, p, key, v: keys.append((node, key)) if p.loc == "MEMO" else None
+        w2.I.hooks["dict-contains"] = lambda I, node, container, item: keys.append((node, item)) if isinstance(container, Ptr) and container.loc == "MEMO" else None
+        w2.I.hooks["dict-index-key"] = lambda I, node, p, key: keys.append((node, key)) if p.loc == "MEMO" else None
+        w2.I.raises.clear()
+        try:
+            res = w2.I.call_function(FuncV(fi=dc, node=dc.node, self_val=a2, module=dc.module), [Ptr("MEMO", ())], {}, dc.node, w2.state)
+        except Exception as e:  # noqa: BLE001
+            res = None
+            inst("R20.4", "UNDECIDED", fn, "a memo entry is returned only under the object's own identity", line, f"abstract evaluation failed: {type(e).__name__}: {e}")
+        if res is not None:
+            opts = list(res.opts) if isinstance(res, Union) else [res]
+            from_memo = any(o == b2 or isinstance(o, Top) for o in opts)
+            bad_keys = [(nd, k) for nd, k in keys if "IDENTITY" not in _deep_prov(k)]
+            if from_memo and bad_keys:
+                nd, k = bad_keys[0]
+                inst("R20.4", "VIOLATED", fn, "a memo entry is returned only under the object's own identity", getattr(nd, "lineno", line),
+                     f"__deepcopy__ can return an object found in the memo under a key that is not this object's identity ({norm_text(nd, 60)}; key depends on {sorted(_deep_prov(k)) or 'nothing of the object'}): "
+                     "two distinct ratings that share that value are merged into one copy, which then holds the mu and sigma of only one of them")
+            else:
+                inst("R20.4", "HOLDS", fn, "a memo entry is returned only under the object's own identity", line, "", {"memo_reads": len(keys), "may_return_memo_entry": from_memo})
+
     # ---------------------------------------------------------------- R20.5 no hidden per-rating state
     allowed_reads = {"mu", "sigma", "id", "name"}
     for op in PUBLIC_OPS:
